@@ -29,6 +29,7 @@ EXPLANATION = (
     'not reachable from event-loop code); token-count constants; CFG must-pass-through for abort-before-await on exceptional exits of the worker join and the '
     'pollable producer hand-over; lock-set discipline (mutations and decisions on shared restore state inside one critical section). Rules C09.R1-R8.'
     ' Added with the seeded-defect rounds: results of asyncio.wait are observed, the worker join is followed through task lists, worker polling loops read the producer\'s completion, the limiter\'s debt lock and the cache helpers (shared with C20 / C18), authenticate never deletes credentials.'
+    ' Round 6: queue hand-over, per-run stop flags, producer future observed before the snapshot is published, adapter methods store nothing on the shared adapter object.'
 )
 NOT_DECIDED = 'equality with a sequential run for every schedule (needs interleaving exploration); only the discipline that excludes the races/hangs is decided'
 TRUSTED = ['asyncio.PriorityQueue(maxsize=N) holds at most N tokens', 'CPython GIL makes single dict/set operations atomic', 'CPython ast']
